@@ -18,7 +18,7 @@ from harness.c10 import WDataset
 
 BOUNDS = {
     "quick": {"accumulate": "1 x 3 x 1 and 3 x 1 x 1 series, windows none/1/2/3/4, -i on/off, both axes", "ens2prob": "1 x 1 x 2 cases, 3 members, thresholds 2, quantile levels 0, 0.5, 0.75, 1",
-              "expandverif": "2 symbolic hourly init times in a 2-day window x 2 symbolic lead times, 2 locations; init hours 0,12; lead times 0,6,24"},
+              "expandverif": "2 symbolic hourly init times in a 2-day window x 2 symbolic lead times, 2 locations; init hours 0,12; requested lead times 0, 0.5, 6"},
     "thorough": {"accumulate": "2 x 3 x 2 and 3 x 2 x 2", "ens2prob": "2 x 1 x 2 cases", "expandverif": "same with 3 lead times"},
 }
 ASSUMPTIONS = ["ensemble members are real numbers (not NaN) where the PIT / CDF oracles need a count of members",
@@ -244,7 +244,7 @@ def h_expandverif(nl):
         lts = [1.0 * l for l in lk] if not S.symbolic else lk
         src, meta = make_src(S, 2, 2, 2, times=times, lts=lts)
         init_hours = [0, 12]
-        req_lts = [0, 6, 24][:nl]
+        req_lts = [0, 0.5, 6, 24][:nl]      # 0.5: no whole-hour input can match it
         out, code = run_script(S, "expandverif", ["expandverif", "in.txt", "-o", "out.nc", "-i", "0,12", "-lt", ",".join(str(v) for v in req_lts)], src)
         S.prove("completes", code is None and out.closed)
         if code is not None:
@@ -285,5 +285,5 @@ def harnesses(tier):
         Harness("accumulate", h_accumulate((2, 3, 2) if thorough else (1, 3, 1), (3, 2, 2) if thorough else (3, 1, 1)),
                 "trailing sums / cumulative sums, incomplete windows missing, -i"),
         Harness("ens2prob", h_ens2prob(2 if thorough else 1, 2, 3), "cdf, quantiles, PIT from the ensemble"),
-        Harness("expandverif", h_expandverif(3 if thorough else 3), "observations placed by valid time"),
+        Harness("expandverif", h_expandverif(4 if thorough else 3), "observations placed by valid time"),
     ]
